@@ -545,3 +545,256 @@ Proof.
     assert (A0 : Z.land (flags g) VG_ATTR_SET = 0) by (rewrite Fz; reflexivity).
     destruct (Hno A0) as [Z1 Z2]. rewrite Fz, Z1, Z2. reflexivity.
 Qed.
+
+Lemma reloaded_members : forall g, WF g -> members (reloaded g) = members g.
+Proof.
+  intros g [Lt Lr Hn Hm Hu]. unfold members, reloaded. cbn [nvelt tag ref].
+  rewrite !firstn_agrow by (rewrite firstn_length; lia). rewrite !firstn_firstn, Nat.min_id. reflexivity.
+Qed.
+
+Lemma reloaded_WF : forall g, WF g -> WF (reloaded g).
+Proof.
+  intros g [Lt Lr Hn Hm Hu]. unfold reloaded.
+  assert (M : 0 < (if MAXNVELT <? nvelt g then nvelt g else MAXNVELT) /\
+              nvelt g <= (if MAXNVELT <? nvelt g then nvelt g else MAXNVELT)).
+  { unfold MAXNVELT. destruct (Z.ltb_spec 64 (nvelt g)); lia. }
+  constructor; cbn [nvelt tag ref msize]; try lia.
+  - apply agrow_length. rewrite firstn_length. lia.
+  - apply agrow_length. rewrite firstn_length. lia.
+Qed.
+
+(** the specification's view of one vgroup record *)
+Definition abs_vg (g : VGROUP) : vg :=
+  mkvg (cstr (opt_bytes (vgname g))) (cstr (opt_bytes (vgclass g))) (members g).
+
+Lemma norm_view : forall o, name_wf o -> cstr (opt_bytes (norm o)) = cstr (opt_bytes o).
+Proof. intros o W. destruct o as [[|x s]|]; reflexivity. Qed.
+
+(** vg_reopen_agrees: what Vdetach writes and Load_vfile reads back is the same vgroup *)
+Lemma reopen_agrees_lemma : forall g, WFpack g ->
+  exists g', vunpackvg (oref g) (snd (vpackvg g)) = Some g' /\ abs_vg g' = abs_vg g /\ WF g' /\
+             oref g' = oref g /\ marked g' = false.
+Proof.
+  intros g P. exists (reloaded g). split; [apply pack_roundtrip_lemma; auto|].
+  destruct P. split; [|split; [apply reloaded_WF; auto | split; reflexivity]].
+  unfold abs_vg. rewrite reloaded_members by auto. unfold reloaded; cbn [vgname vgclass].
+  rewrite !norm_view by auto. reflexivity.
+Qed.
+
+(* ================================================================================================== *)
+(** * Vlone / VSlone: the flag-array algorithm computes the graph-theoretic notion *)
+
+Lemma fkey_inj : forall i j, 0 <= i -> 0 <= j -> fkey i = fkey j -> i = j.
+Proof. unfold fkey. intros i j Hi Hj H. apply Z2Pos.inj in H; lia. Qed.
+
+Lemma flag_get_set : forall i j v m, 0 <= i -> 0 <= j ->
+  flag_get i (flag_set j v m) = if i =? j then v else flag_get i m.
+Proof.
+  intros. unfold flag_get, flag_set. destruct (Z.eqb_spec i j).
+  - subst. rewrite PositiveMap.gss. reflexivity.
+  - rewrite PositiveMap.gso; auto. intro E. apply fkey_inj in E; auto.
+Qed.
+
+Lemma flag_get_empty : forall i, flag_get i (PositiveMap.empty bool) = false.
+Proof. intros. unfold flag_get. rewrite PositiveMap.gempty. reflexivity. Qed.
+
+Lemma mark_ids_spec : forall ids m i, 0 <= i -> Forall (fun k => 0 <= k) ids ->
+  flag_get i (fold_left (fun m id => flag_set id true m) ids m) = existsb (Z.eqb i) ids || flag_get i m.
+Proof.
+  induction ids; intros m i Hi F; [reflexivity|]. inversion F; subst. cbn [fold_left existsb].
+  rewrite IHids, flag_get_set by auto. destruct (i =? a); [rewrite orb_true_r|]; reflexivity.
+Qed.
+
+Lemma clear_list_spec : forall (l : list (Z * Z)) w m i, 0 <= i -> Forall (fun p => 0 <= snd p) l ->
+  flag_get i (fold_left (fun m p => if fst p =? w then flag_set (snd p) false m else m) l m) =
+  if has_member (w, i) l then false else flag_get i m.
+Proof.
+  induction l as [|[t r] l]; intros w m i Hi F; [reflexivity|]. inversion F; subst. cbn [fst snd] in *.
+  cbn [fold_left]. rewrite IHl by auto. unfold has_member. cbn [existsb fst snd]. unfold pair_eqb; cbn [fst snd].
+  destruct (existsb (fun b : Z * Z => (w =? fst b) && (i =? snd b)) l); [rewrite orb_true_r; reflexivity|].
+  rewrite orb_false_r. rewrite (Z.eqb_sym w t). destruct (t =? w); cbn [andb]; [|reflexivity].
+  rewrite flag_get_set by auto. reflexivity.
+Qed.
+
+Lemma fold_left_map_arg : forall (A B C : Type) (F : C -> B -> C) (h : A -> B) (l : list A) (m : C),
+  fold_left (fun m i => F m (h i)) l m = fold_left F (map h l) m.
+Proof. induction l; intros; simpl; auto. Qed.
+
+Definition refs_ok (g : VGROUP) : Prop := Forall (fun p => 0 <= snd p) (members g).
+
+Lemma clear_members_spec : forall g w m i, WF g -> refs_ok g -> 0 <= i ->
+  flag_get i (clear_members w g m) = if has_member (w, i) (members g) then false else flag_get i m.
+Proof.
+  intros g w m i [Lt Lr Hn Hm Hu] RO Hi. unfold clear_members, idx.
+  rewrite (fold_left_map_arg nat (Z * Z) _
+             (fun m p => if fst p =? w then flag_set (snd p) false m else m)
+             (fun i => (aget (tag g) i, aget (ref g) i))).
+  rewrite map_idx_members by lia. apply clear_list_spec; auto.
+Qed.
+
+Lemma tget_in : forall A (t : list (Z * A)) k v, NoDup (keys t) -> In (k, v) t -> tget k t = Some v.
+Proof.
+  induction t as [|[k' v'] t]; intros k v ND H; [inversion H|]. cbn [tget]. inversion ND; subst.
+  destruct H as [H|H].
+  - inversion H; subst. rewrite Z.eqb_refl. reflexivity.
+  - destruct (Z.eqb_spec k k'); [subst; exfalso; apply H2; apply (in_map fst) in H; auto|]. auto.
+Qed.
+
+Lemma fold_keys_tget : forall A C (t l : list (Z * A)) (F : A -> C -> C) (m : C),
+  NoDup (keys t) -> incl l t ->
+  fold_left (fun m id => match tget id t with Some g => F g m | None => m end) (keys l) m =
+  fold_left (fun m e => F (snd e) m) l m.
+Proof.
+  induction l as [|[k v] l]; intros F m ND I; [reflexivity|]. cbn [keys map fst fold_left snd].
+  rewrite (tget_in A t k v) by (auto; apply I; left; auto).
+  apply IHl; auto. intros x Hx. apply I. right. auto.
+Qed.
+
+Definition abs_table (t : list (Z * VGROUP)) : list (Z * vg) := map (fun e => (fst e, abs_vg (snd e))) t.
+
+Lemma keys_abs_table : forall t, keys (abs_table t) = keys t.
+Proof. intro. unfold keys, abs_table. rewrite map_map. reflexivity. Qed.
+
+Lemma clear_table_spec : forall (t : list (Z * VGROUP)) w m i, 0 <= i ->
+  (forall k g, In (k, g) t -> WF g /\ refs_ok g) ->
+  flag_get i (fold_left (fun m e => clear_members w (snd e) m) t m) =
+  if referenced w i (abs_table t) then false else flag_get i m.
+Proof.
+  induction t as [|[k g] t]; intros w m i Hi H; [reflexivity|]. cbn [fold_left snd].
+  rewrite IHt by (auto; intros; apply (H k0); right; auto).
+  destruct (H k g (or_introl eq_refl)) as [W RO].
+  rewrite clear_members_spec by auto. unfold referenced, abs_table. cbn [map existsb snd fst abs_vg g_members].
+  destruct (has_member (w, i) (members g)); cbn [orb]; [|reflexivity].
+  destruct (existsb _ _); reflexivity.
+Qed.
+
+Lemma zrange_from_bounds : forall n a x, In x (zrange_from a n) -> a <= x < a + Z.of_nat n.
+Proof.
+  induction n; intros a x H; [inversion H|]. cbn [zrange_from] in H. destruct H as [H|H].
+  - subst. lia.
+  - apply IHn in H. lia.
+Qed.
+
+Lemma filter_range_sorted : forall n a ids (g : Z -> bool),
+  StronglySorted Z.lt ids -> Forall (fun k => a <= k < a + Z.of_nat n) ids ->
+  filter (fun i => existsb (Z.eqb i) ids && g i) (zrange_from a n) = filter g ids.
+Proof.
+  induction n; intros a ids g S F.
+  - destruct ids; [reflexivity|]. inversion F; subst. lia.
+  - cbn [zrange_from filter]. destruct ids as [|x xs].
+    + rewrite (IHn (a + 1) [] g); auto.
+    + inversion S as [|? ? S' Hall]; subst. inversion F as [|? ? Hx F']; subst.
+      assert (Hxs : Forall (fun k => x < k) xs) by auto.
+      destruct (Z.eq_dec x a) as [E|E].
+      * subst x.
+        assert (R : filter (fun i => (existsb (Z.eqb i) (a :: xs)) && g i) (zrange_from (a + 1) n) =
+                    filter (fun i => existsb (Z.eqb i) xs && g i) (zrange_from (a + 1) n)).
+        { apply filter_ext_in. intros i Hi. apply zrange_from_bounds in Hi. cbn [existsb].
+          destruct (Z.eqb_spec i a); [lia|]. reflexivity. }
+        rewrite R, (IHn (a + 1) xs g); auto.
+        cbn [existsb]. rewrite Z.eqb_refl. cbn [orb andb filter]. reflexivity.
+        rewrite Forall_forall in *. intros k Hk. specialize (Hxs k Hk). specialize (F' k Hk). lia.
+      * assert (Hn : existsb (Z.eqb a) (x :: xs) = false).
+        { cbn [existsb]. destruct (Z.eqb_spec a x); [lia|]. cbn [orb].
+          apply not_true_is_false. intro T. apply existsb_exists in T as (y & Hy & Ey).
+          apply Z.eqb_eq in Ey. subst y. rewrite Forall_forall in Hxs. specialize (Hxs a Hy). lia. }
+        rewrite Hn. cbn [andb]. apply (IHn (a + 1) (x :: xs) g); auto.
+        constructor; [lia|]. rewrite Forall_forall in *. intros k Hk. specialize (Hxs k Hk). specialize (F' k Hk). lia.
+Qed.
+
+Definition table_ok {A} (t : list (Z * A)) : Prop :=
+  StronglySorted Z.lt (keys t) /\ Forall (fun k => 0 <= k <= MAX_REF) (keys t).
+
+Lemma sorted_nodup : forall l, StronglySorted Z.lt l -> NoDup l.
+Proof.
+  induction 1; constructor; auto. intro I. rewrite Forall_forall in H0. specialize (H0 a I). lia.
+Qed.
+
+Lemma table_ok_facts : forall A (t : list (Z * A)), table_ok t ->
+  NoDup (keys t) /\ Forall (fun x => 0 <= x) (keys t).
+Proof.
+  intros A t [S F]. split; [apply sorted_nodup; auto|]. eapply Forall_impl; [|exact F]. cbn. intros; lia.
+Qed.
+
+Lemma lone_scan_spec : forall ids w (vgt : list (Z * VGROUP)),
+  StronglySorted Z.lt ids -> Forall (fun k => 0 <= k <= MAX_REF) ids -> table_ok vgt ->
+  (forall k g, In (k, g) vgt -> WF g /\ refs_ok g) ->
+  lone_scan ids w vgt (MAX_REF + 1) = filter (fun r => negb (referenced w r (abs_table vgt))) ids.
+Proof.
+  intros ids w vgt S F TO HW. destruct (table_ok_facts _ vgt TO) as [ND NN].
+  unfold lone_scan. rewrite all_ids_keys by auto.
+  rewrite (fold_keys_tget VGROUP _ vgt vgt (fun g m => clear_members w g m)) by (try apply incl_refl; auto).
+  unfold zrange.
+  rewrite <- (filter_range_sorted (Z.to_nat (MAX_REF + 1)) 0 ids); auto.
+  - apply filter_ext_in. intros i Hi. apply zrange_from_bounds in Hi.
+    rewrite clear_table_spec by (first [lia | auto]).
+    rewrite mark_ids_spec by (first [lia | eapply Forall_impl; [|exact F]; cbn; intros; lia]).
+    rewrite flag_get_empty, orb_false_r.
+    destruct (referenced w i (abs_table vgt)); cbn [negb]; [rewrite andb_false_r|rewrite andb_true_r]; reflexivity.
+  - eapply Forall_impl; [|exact F]. intros k Hk. cbv beta in Hk |- *. rewrite Z2Nat.id by (unfold MAX_REF; lia). lia.
+Qed.
+
+(** the specification state a model state stands for *)
+Definition abs_state (s : mstate) : state := mkst (abs_table (m_vg s)) (m_vs s) (m_hg s) (m_hs s).
+
+Lemma lone_correct_lemma : forall s, table_ok (m_vg s) -> table_ok (m_vs s) ->
+  (forall k g, In (k, g) (m_vg s) -> WF g /\ refs_ok g) ->
+  Vlone s = lone_vgroups (abs_state s) /\ VSlone s = lone_vdatas (abs_state s).
+Proof.
+  intros s TG TS HW. unfold Vlone, VSlone, lone_vgroups, lone_vdatas, abs_state. cbn [vgs vss].
+  destruct (table_ok_facts _ _ TG) as [NDg NNg]. destruct (table_ok_facts _ _ TS) as [NDs NNs].
+  rewrite !all_ids_keys by auto. rewrite keys_abs_table.
+  destruct TG as [Sg Fg]. destruct TS as [Ss Fs].
+  split; apply lone_scan_spec; auto; split; auto.
+Qed.
+
+Lemma tget_keys : forall A (t : list (Z * A)) k, In k (keys t) <-> exists v, tget k t = Some v.
+Proof.
+  induction t as [|[k' v'] t]; intros k; cbn [keys map fst In tget].
+  - split; [tauto | intros [v H]; discriminate].
+  - destruct (Z.eqb_spec k k').
+    + subst. split; eauto.
+    + rewrite <- IHt. unfold keys. split; [intros [H|H]; [congruence|auto] | auto].
+Qed.
+
+Lemma enumeration_exact_lemma : forall A (t : list (Z * A)), table_ok t ->
+  all_ids t = keys t /\ NoDup (all_ids t) /\ (forall k, In k (all_ids t) <-> exists v, tget k t = Some v).
+Proof.
+  intros A t TO. destruct (table_ok_facts _ _ TO) as [ND NN].
+  rewrite all_ids_keys by auto. split; [reflexivity|]. split; [auto|]. intro k. apply tget_keys.
+Qed.
+
+(** the statements of the C source the model was written against (regenerated from vgp.c on every run) *)
+Module Layout.
+Import String.
+Lemma source_layout_pinned_lemma :
+  vpackvg_layout =
+    ["bb=&buf[0]"; "UINT16ENCODE(bb,vg->nvelt)"; "for(i=0;i<(unsigned)vg->nvelt;i++)"; "UINT16ENCODE(bb,vg->tag[i])";
+     "for(i=0;i<(unsigned)vg->nvelt;i++)"; "UINT16ENCODE(bb,vg->ref[i])"; "if(vg->vgname!=NULL)";
+     "UINT16ENCODE(bb,temp_len)"; "if(vg->vgname!=NULL)"; "bb+=temp_len"; "if(vg->vgclass!=NULL)";
+     "UINT16ENCODE(bb,temp_len)"; "if(vg->vgclass!=NULL)"; "bb+=temp_len"; "UINT16ENCODE(bb,vg->extag)";
+     "UINT16ENCODE(bb,vg->exref)"; "if(vg->flags)"; "if(vg->version<VSET_NEW_VERSION)"; "UINT32ENCODE(bb,vg->flags)";
+     "if(vg->flags&VG_ATTR_SET)"; "INT32ENCODE(bb,vg->nattrs)"; "for(i=0;i<(unsigned)vg->nattrs;i++)";
+     "UINT16ENCODE(bb,vg->alist[i].atag)"; "UINT16ENCODE(bb,vg->alist[i].aref)"; "UINT16ENCODE(bb,vg->version)";
+     "UINT16ENCODE(bb,vg->more)"; "*size=(int32)(bb-buf)+1"; "*bb=0"]%string /\
+  vunpackvg_layout =
+    ["bb=&buf[len-5]"; "UINT16DECODE(bb,uint16var)"; "UINT16DECODE(bb,uint16var)"; "bb=&buf[0]"; "if(vg->version<=4)";
+     "UINT16DECODE(bb,vg->nvelt)"; "if((vg->tag==NULL)||(vg->ref==NULL))"; "for(u=0;u<(unsigned)vg->nvelt;u++)";
+     "UINT16DECODE(bb,vg->tag[u])"; "for(u=0;u<(unsigned)vg->nvelt;u++)"; "UINT16DECODE(bb,vg->ref[u])";
+     "UINT16DECODE(bb,uint16var)"; "if(uint16var==0)"; "else"; "bb+=(size_t)uint16var"; "UINT16DECODE(bb,uint16var)";
+     "if(uint16var==0)"; "else"; "bb+=(size_t)uint16var"; "UINT16DECODE(bb,vg->extag)"; "UINT16DECODE(bb,vg->exref)";
+     "if(vg->version==VSET_NEW_VERSION)"; "UINT32DECODE(bb,vg->flags)"; "if(vg->flags&VG_ATTR_SET)";
+     "INT32DECODE(bb,vg->nattrs)"; "for(i=0;i<vg->nattrs;i++)"; "UINT16DECODE(bb,vg->alist[i].atag)";
+     "UINT16DECODE(bb,vg->alist[i].aref)"]%string /\
+  vinsertpair_grow_cond = "(int)vg->nvelt>=vg->msize"%string /\
+  vinsertpair_grow_step = "vg->msize*=2;"%string /\
+  vinsertpair_store = "vg->tag[(unsigned)vg->nvelt]=tag;vg->ref[(unsigned)vg->nvelt]=ref;vg->nvelt++;"%string /\
+  vdeletetagref_shift = "for(j=i;j<(unsigned)vg->nvelt-1;j++){vg->tag[j]=vg->tag[j+1];vg->ref[j]=vg->ref[j+1];}"%string /\
+  vdeletetagref_shrink = "vg->tag[(unsigned)vg->nvelt-1]=DFTAG_NULL;vg->ref[(unsigned)vg->nvelt-1]=0;vg->nvelt--;"%string /\
+  vunpackvg_msize = "vg->msize=((unsigned)vg->nvelt>(unsigned)MAXNVELT?vg->nvelt:MAXNVELT);"%string /\
+  vunpackvg_tail = "bb=&buf[len-5];"%string /\
+  (MAXNVELT, MAX_REF, DFTAG_NULL, DFTAG_VG, DFTAG_VH, VSDESCTAG) = (64, 65535, 1, 1965, 1962, 1962) /\
+  (VG_ATTR_SET, VSET_VERSION, VSET_NEW_VERSION) = (1, 3, 4) /\
+  Z.of_nat (List.length HDF_INTERNAL_VGS) = HDF_NUM_INTERNAL_VGS.
+Proof. repeat split; reflexivity. Qed.
+End Layout.
